@@ -100,8 +100,20 @@ FLUSH_KINDS = ("flush", "flush_exit", "flush_hook", "autoflush")
 GC_KINDS = ("gc_files", "run_gc", "gc_startup")
 OP_KINDS = FLUSH_KINDS + ("delete", "erasedups") + GC_KINDS
 
+# Buffering models under which every scenario is enumerated.  The size of Python's write buffer is a property
+# of the environment (st_blksize of the file system, interpreter version), not of xonsh, so atomicity must
+# hold for each of them:
+#   real - the interpreter's own stack: FileIO -> BufferedWriter(default size) -> TextIOWrapper; ops are counted
+#          at the RAW level (one op per write(2) the process would issue), data sits in user space until then
+#   huge - same stack with a 4 MiB buffer: nothing reaches the file before flush()/close()
+#   wt   - write-through: every completed Python-level write() is on disk at once (a tiny buffer / explicit flush)
+BUFS = ("real", "huge", "wt")
+HUGE_BUF = 4 << 20
+BULK_INPS = ("ls -la /srv/data/d", "echo value", "git log -n")
+
 MUTATING = ("open-w", "fdopen-w", "osopen-w", "write", "bwrite", "oswrite", "close-w", "mkstemp", "replace", "rename",
             "remove", "unlink", "truncate", "ftruncate")
+READ_ONLY = ("open-r", "fdopen-r", "osopen-r", "read")
 ERRNOS = {
     "open-r": ("EACCES", "EIO", "EMFILE"),
     "fdopen-r": ("EIO",),
@@ -177,8 +189,25 @@ def _setup(scratch):
     xhj.time = clock
     xhs.time = clock
     up.boottime = lambda: BOOT
-    _state.update(XSH=XSH, xhj=xhj, xhs=xhs, xlj=xlj, base=base, data=data, cache={})
+    _state.update(XSH=XSH, xhj=xhj, xhs=xhs, xlj=xlj, base=base, data=data, cache={}, bufsize=_probe_bufsize(base))
     return _state
+
+
+def _probe_bufsize(dirpath):
+    """The write-buffer size open() really picks for a file in the scratch file system (st_blksize and
+    interpreter dependent), found by experiment: bytes accepted before the first one reaches the file."""
+    p = os.path.join(dirpath, "bufprobe-%d" % os.getpid())
+    with open(p, "wb") as f:
+        fd, size = f.fileno(), 0
+        for _ in range(HUGE_BUF):
+            f.write(b"x")
+            size = os.fstat(fd).st_size
+            if size:
+                break
+    os.remove(p)
+    if not size:
+        raise common.HarnessError("could not determine the default write-buffer size")
+    return size
 
 
 # ----------------------------------------------------------------------------------------
@@ -199,6 +228,10 @@ def _file_meta(i, fs, counter):
         tsb = BOOT - 50_000.0 + 7.0 * counter[0]
         counter[0] += 1
         cmds.append({"inp": inp + "\n", "rtn": rtn, "ts": [tsb, tsb + 1.5], "cwd": "/home/u"})
+    for j in range(fs.get("bulk") or 0):    # payload above the I/O buffer size; j and j + 96 are duplicates
+        tsb = BOOT - 50_000.0 + 7.0 * counter[0]
+        counter[0] += 1
+        cmds.append({"inp": "%s %04d\n" % (BULK_INPS[j % 3], j % 96), "rtn": 0, "ts": [tsb, tsb + 1.5], "cwd": "/home/u"})
     t0 = (BOOT - 5000.0 - i) if fs["lock"] == "stale" or (fs["lock"] == "no" and fs.get("old")) else (BOOT + 5000.0 + i)
     meta = {"cmds": cmds, "sessionid": fs["sid"], "ts": [t0, (t0 + 100.0) if fs["closed"] else None],
             "locked": fs["lock"] != "no"}
@@ -298,8 +331,9 @@ def snapshot(entries):
 
 
 class _Injector:
-    def __init__(self, root, plan, wfd):
+    def __init__(self, root, plan, wfd, buf="wt"):
         self.root = os.path.realpath(root)
+        self.buf = buf
         self.plan = plan
         self.wfd = wfd
         self.n = 0
@@ -366,10 +400,11 @@ def _install(inj):
     class CText(io.TextIOWrapper):
         _c13_label = None
         _c13_w = False
+        _c13_rawlevel = False
 
         def write(self, s):
-            if inj.depth or not inj.active or self._c13_label is None:
-                return super().write(s)
+            if inj.depth or not inj.active or self._c13_label is None or self._c13_rawlevel:
+                return super().write(s)     # raw level: the real buffering decides when write(2) happens
             enc = s.encode(self.encoding or "utf-8", self.errors or "strict")
             if self._c13_newline_translate:
                 enc = enc.replace(b"\n", os.linesep.encode())
@@ -403,6 +438,24 @@ def _install(inj):
                         inj.fail(act, self._c13_label)
             return super().close()
 
+    class CRaw(io.FileIO):
+        """Raw file of the 'real' / 'huge' models: one op per write(2) the process issues."""
+        _c13_label = None
+
+        def write(self, b):
+            if inj.depth or not inj.active or self._c13_label is None:
+                return super().write(b)
+            data = bytes(b)
+            act = inj.op("write", self._c13_label, len(data))
+            if act is not None:
+                m = act[1] if act[0] == "partial" else len(data) // 2
+                if m:
+                    o_oswrite(self.fileno(), data[:m])
+                if act[0] == "partial":
+                    os._exit(9)
+                inj.fail(act, self._c13_label)
+            return super().write(b)
+
     def w_open(file, mode="r", buffering=-1, encoding=None, errors=None, newline=None, closefd=True, opener=None):
         label = None if (inj.depth or not inj.active) else inj.label(file)
         if label is None:
@@ -422,13 +475,25 @@ def _install(inj):
                     f.close()
                     inj.fail(act, label)
             return f
-        raw = o_open(file, mode.replace("t", "") + "b", -1, None, None, None, closefd, opener)
+        rawlevel = writing and inj.buf != "wt"
+        if rawlevel:
+            fio = CRaw(file, mode.replace("t", ""), closefd=closefd, opener=opener)
+            fio._c13_label = label
+            try:
+                bs = HUGE_BUF if inj.buf == "huge" else _state["bufsize"]
+                raw = (io.BufferedRandom if "+" in mode else io.BufferedWriter)(fio, bs)
+            except BaseException:
+                fio.close()
+                raise
+        else:
+            raw = o_open(file, mode.replace("t", "") + "b", -1, None, None, None, closefd, opener)
         try:
             f = CText(raw, encoding=encoding or "utf-8", errors=errors, newline=newline)
         except BaseException:
             raw.close()
             raise
         f._c13_label = label
+        f._c13_rawlevel = rawlevel
         f._c13_w = writing
         f._c13_newline_translate = newline is None and os.linesep != "\n"
         f.mode = mode
@@ -615,7 +680,7 @@ def _perform(scn, hist):
         raise common.HarnessError("bad op kind %r" % kind)
 
 
-def _child(scn, entries, plan, wfd):
+def _child(scn, entries, plan, wfd, buf="wt"):
     """Runs in the forked child; never returns."""
     code = 70
     try:
@@ -627,7 +692,7 @@ def _child(scn, entries, plan, wfd):
         thread_exc = []
         threading.excepthook = lambda a: thread_exc.append("%s: %s" % (getattr(a.exc_type, "__name__", "?"), a.exc_value))
         hist = _make_history(scn, entries)
-        inj = _Injector(_state["data"], plan, wfd)
+        inj = _Injector(_state["data"], plan, wfd, buf)
         _install(inj)
         exc = None
         try:
@@ -650,7 +715,7 @@ def _child(scn, entries, plan, wfd):
         os._exit(code)
 
 
-def run_point(scn, entries, plan):
+def run_point(scn, entries, plan, buf="wt"):
     """Materialise, fork, run the operation under `plan`, wait.  -> dict(msgs..., status)."""
     if threading.active_count() != 1:
         raise common.HarnessError("cannot fork: %d threads alive in the worker" % threading.active_count())
@@ -659,7 +724,7 @@ def run_point(scn, entries, plan):
     pid = os.fork()
     if pid == 0:
         os.close(r)
-        _child(scn, entries, plan, w)
+        _child(scn, entries, plan, w, buf)
     os.close(w)
     chunks = []
     while True:
@@ -835,7 +900,22 @@ def is_f2(scn, e, trace, point, old_state, state):
     return state[1].get("sessionid") == "" and all(x in buf for x in n)
 
 
-def enumerate_points(trace):
+def enumerate_points(trace, buf="wt"):
+    """Every kill point of one reference trace.  (The state after the LAST op needs no point of its own: the
+    reference child itself ends with os._exit right after the operation returns, so its result - checked by
+    model_check_clean - is the state a kill at k = N leaves, unflushed buffers included.)"""
+    pts = []
+    for p in _enumerate_points(trace):
+        if buf != BUFS[0] and trace[p["k"]][0] in READ_ONLY:
+            continue        # a read changes nothing on disk and does not depend on the write buffering: the crash
+                            # state equals the one before the next op, the fault outcome the one under BUFS[0]
+        if buf != "wt":
+            p["buf"] = buf
+        pts.append(p)
+    return pts
+
+
+def _enumerate_points(trace):
     pts = []
     for k, (kind, label, nb) in enumerate(trace):
         pts.append({"mode": "crash", "k": k, "m": None})
@@ -867,8 +947,9 @@ def point_nontrivial(trace, point):
 class Prepared:
     """A scenario with its un-faulted reference run."""
 
-    def __init__(self, scn):
+    def __init__(self, scn, buf="wt"):
         self.scn = scn
+        self.buf = buf
         self.entries = build_scenario(scn)
         self.old_states = {}
         materialize(self.entries)
@@ -876,7 +957,7 @@ class Prepared:
             self.old_states[e["rel"]] = load_state(e["path"], e["bytes"])
             if not e["spec"].get("corrupt") and self.old_states[e["rel"]][0] != "ok":
                 raise common.HarnessError("generated intact history file does not load: %s" % (self.old_states[e["rel"]][1],))
-        ref = run_point(scn, self.entries, None)
+        ref = run_point(scn, self.entries, None, buf)
         if not ref["done"]:
             raise common.HarnessError("un-faulted reference run did not finish (status %r)" % ref["status"])
         self.trace = ref["trace"]
@@ -906,9 +987,11 @@ class Prepared:
         k = point["k"]
         if not (0 <= k < len(self.trace)):
             return [], []
-        res = run_point(scn, self.entries, point)
+        if point.get("buf", "wt") != self.buf:
+            raise common.HarnessError("point %r belongs to another buffering model than %r" % (point, self.buf))
+        res = run_point(scn, self.entries, point, self.buf)
         if res["hit"] is None or res["hit"][1:] != self.trace[k][:2]:
-            res = run_point(scn, self.entries, point)
+            res = run_point(scn, self.entries, point, self.buf)
             if res["hit"] is None or res["hit"][1:] != self.trace[k][:2]:
                 raise common.HarnessError("op numbering is not reproducible: point %r hit %r, reference op %r" % (
                     point, res["hit"], self.trace[k]))
@@ -936,6 +1019,9 @@ class Prepared:
             where = ("crash before op %d (%s %s)" % (k, opk[0], opk[1]) if point["mode"] == "crash" and point.get("m") is None
                      else "crash after %d of %d bytes of op %d (%s %s)" % (point["m"], opk[2] or 0, k, opk[0], opk[1])
                      if point["mode"] == "crash" else "%s injected at op %d (%s %s)" % (point["errno"], k, opk[0], opk[1]))
+            where += {"real": " [real buffering: %d-byte BufferedWriter, ops = raw writes]" % _state["bufsize"],
+                      "huge": " [buffering model: nothing reaches the file before flush/close]",
+                      "wt": " [buffering model: every completed write() is on disk]"}[self.buf]
             fails.append(Failure(kind, {"scenario": scn, "point": point},
                                  "%s: %s; %s" % (scn["op"]["kind"], where, detail), finding=finding,
                                  bucket="%s:%s:%s" % (finding or ("unloadable" if kind == "empty" else kind),
@@ -952,44 +1038,65 @@ def scn_key(scn):
 
 
 def explore_scenario(scn, stats, tolerate=True, only=None):
-    """Enumerate every point of one scenario (only=(mode, op kind at k) restricts the enumeration; used
-    while shrinking).  Returns the list of failures."""
-    P = Prepared(scn)
+    """Enumerate every point of one scenario under every buffering model (only=(mode, op kind at k, buf)
+    restricts the enumeration; used while shrinking).  Returns the list of failures."""
     kind = scn["op"]["kind"]
     key0 = scn_key(scn)
     fails = []
-    nmut = sum(1 for t in P.trace if t[0] in MUTATING)
-    stats.hist["scenarios"] += 1
-    stats.hist["scenario-op:" + kind] += 1
-    stats.hist["scenario-files:%d" % len(scn["files"])] += 1
-    stats.hist["scenario-ops:%s" % ("0" if not P.trace else "1-9" if len(P.trace) < 10 else "10-29" if len(P.trace) < 30 else "30+")] += 1
-    if not nmut:
-        stats.hist["scenario-without-rewrite"] += 1
-    for lab, pred in (("stale-locked", lambda f: f["lock"] == "stale"), ("live-locked", lambda f: f["lock"] == "live"),
-                      ("corrupt", lambda f: f.get("corrupt")), ("compat-dir", lambda f: f["where"] == "data"),
-                      ("custom-file", lambda f: f["where"] == "custom")):
-        if any(pred(f) for f in scn["files"]):
-            stats.hist["scenario-with:" + lab] += 1
-    # the un-faulted run is a point of its own
-    stats.case((key0, "clean"), False, ["op:" + kind, "mode:none"])
-    if P.clean_problems:
-        f = Failure("no-fault-run-damages", {"scenario": scn, "point": None}, "; ".join(P.clean_problems[:3]),
-                    bucket="clean:" + op_family(kind))
-        fails.append(f)
-    for point in enumerate_points(P.trace):
-        if only is not None and (point["mode"], P.trace[point["k"]][0]) != only:
+    first = None
+    traces = []
+    for buf in (BUFS if only is None else (only[2],)):
+        P = Prepared(scn, buf)
+        if first is None:
+            first = P
+            nmut = sum(1 for t in P.trace if t[0] in MUTATING)
+            stats.hist["scenarios"] += 1
+            stats.hist["scenario-op:" + kind] += 1
+            stats.hist["scenario-files:%d" % len(scn["files"])] += 1
+            stats.hist["scenario-ops:%s" % ("0" if not P.trace else "1-9" if len(P.trace) < 10 else "10-29" if len(P.trace) < 30 else "30+")] += 1
+            if not nmut:
+                stats.hist["scenario-without-rewrite"] += 1
+            for lab, pred in (("stale-locked", lambda f: f["lock"] == "stale"), ("live-locked", lambda f: f["lock"] == "live"),
+                              ("corrupt", lambda f: f.get("corrupt")), ("compat-dir", lambda f: f["where"] == "data"),
+                              ("custom-file", lambda f: f["where"] == "custom"), ("bulk-file", lambda f: f.get("bulk"))):
+                if any(pred(f) for f in scn["files"]):
+                    stats.hist["scenario-with:" + lab] += 1
+            for e in P.entries:
+                if P.new_snap[e["rel"]] not in (None, e["bytes"]):
+                    n = len(P.new_snap[e["rel"]])
+                    stats.hist["rewritten-file:%s" % ("below-buffer" if n <= _state["bufsize"] else
+                                                      "above-buffer" if n <= 8192 else "above-8KiB")] += 1
+        elif P.new_snap != first.new_snap:
+            stats.hist["clean-result-differs-by-buffering"] += 1
+        # the un-faulted run is a point of its own
+        stats.case((key0, "clean", buf), False, ["op:" + kind, "mode:none", "buf:" + buf])
+        if P.clean_problems:
+            f = Failure("no-fault-run-damages", {"scenario": scn, "point": None, "buf": buf}, "; ".join(P.clean_problems[:3]),
+                        bucket="clean:" + op_family(kind))
+            fails.append(f)
+        if P.trace in traces:
+            # same sequence of ops (kinds, files, byte counts) as under a model already enumerated: the payloads of
+            # this scenario make the two models coincide, every point would repeat the same execution
+            stats.hist["buf-model-coincides:" + buf] += 1
             continue
-        fs, tol = P.run(point, tolerate=tolerate, stats=stats)
-        nt = point_nontrivial(P.trace, point)
-        mode = ("partial" if point.get("m") is not None else "crash") if point["mode"] == "crash" else "fault:" + point["errno"]
-        labels = ["op:" + kind, "mode:" + mode, "at:" + P.trace[point["k"]][0]]
-        for t in tol:
-            stats.excluded_known[t] += 1
-            labels.append("tolerated:" + t)
-        stats.case((key0, point["mode"], point["k"], point.get("m"), point.get("errno")), nt, labels,
-                   sample={"scenario": scn, "point": point, "op_at_k": P.trace[point["k"]]} if nt else None,
-                   max_per_label=1)
-        fails.extend(fs)
+        traces.append(P.trace)
+        stats.hist["buf-model-enumerated:" + buf] += 1
+        for point in enumerate_points(P.trace, buf):
+            if only is not None and (point["mode"], P.trace[point["k"]][0]) != tuple(only[:2]):
+                continue
+            fs, tol = P.run(point, tolerate=tolerate, stats=stats)
+            nt = point_nontrivial(P.trace, point)
+            mode = ("partial" if point.get("m") is not None else "crash") if point["mode"] == "crash" else "fault:" + point["errno"]
+            labels = ["op:" + kind, "mode:" + mode, "at:" + P.trace[point["k"]][0], "buf:" + buf]
+            if point["mode"] == "crash" and point.get("m") is None and point["k"] > 0:
+                labels.append("crash-after:%s/%s" % (P.trace[point["k"] - 1][0], buf))
+            for t in tol:
+                stats.excluded_known[t] += 1
+                labels.append("tolerated:" + t)
+            stats.case((key0, buf, point["mode"], point["k"], point.get("m"), point.get("errno")), nt, labels,
+                       sample={"scenario": scn, "point": point, "op_at_k": P.trace[point["k"]]} if nt else None,
+                       max_per_label=1)
+            fails.extend(fs)
     return fails
 
 
@@ -1036,6 +1143,9 @@ def scenario_strategy(kind=None):
                 lock, closed = "stale", (closed if i != own else False)
             fs = {"sid": "s%d" % i, "cmds": cmds, "lock": lock, "closed": closed, "where": where,
                   "env": draw(st.booleans()), "old": draw(st.booleans())}
+            bulk = draw(st.sampled_from([0, 0, 0, 0, 0, 40, 120, 200]))     # 40: ~4-8 KiB, 120 / 200: above 8 KiB
+            if bulk:
+                fs["bulk"] = bulk
             if corrupt_at == i:
                 fs["corrupt"] = draw(st.sampled_from(CORRUPT))
             files.append(fs)
@@ -1107,7 +1217,8 @@ def _shrink_candidates(scn):
                 c = json.loads(json.dumps(scn))
                 c["files"][i]["cmds"] = cmds
                 yield c
-        for key, val in (("env", False), ("old", False), ("closed", False), ("where", "hist"), ("corrupt", None)):
+        for key, val in (("env", False), ("old", False), ("closed", False), ("where", "hist"), ("corrupt", None),
+                         ("bulk", None)):
             if f.get(key) not in (val, None):
                 c = json.loads(json.dumps(scn))
                 if val is None:
@@ -1158,7 +1269,8 @@ def worker_json(arg):
     out = []
     for n, (b, f) in enumerate(found.items()):
         if n < 3 and f.case.get("point") is not None:
-            g = shrink_scenario(f.case["scenario"], b, (f.case["point"]["mode"], b.rsplit(":", 1)[1]))
+            g = shrink_scenario(f.case["scenario"], b, (f.case["point"]["mode"], b.rsplit(":", 1)[1],
+                                                         f.case["point"].get("buf", "wt")))
             if g is not None:
                 f = g
         out.append(f)
@@ -1171,7 +1283,7 @@ def check_case(case, tolerate=False):
     if case.get("sqlite") or case.get("strace"):
         return check_strace_case(case)
     scn = case["scenario"]
-    P = Prepared(scn)
+    P = Prepared(scn, (case.get("point") or case).get("buf", "wt"))     # replays from before the buffering models: wt
     if case.get("point") is None:
         if P.clean_problems:
             return Failure("no-fault-run-damages", case, "; ".join(P.clean_problems[:3]))
@@ -1546,12 +1658,15 @@ def main(run):
     stride = _dev_stride()
     if stride > 1:
         run.stats.notes.append("development run: VERIF_C13_STRIDE=%d" % stride)
+    t0 = _real_time.time()
     scns = generate_scenarios(run.seed, run.n(140, 7000) // stride)
+    t1 = _real_time.time()
     common.pool_map(run, __name__, "worker_json", [(scns[i::nw], run.scratch) for i in range(nw) if scns[i::nw]], procs=procs)
     run.extra["exhaustive_subspace"] = ("per explored scenario: every crash point before each Python-level file-system op, "
                                         "every listed partial-write length, every single injected OSError")
+    t2 = _real_time.time()
     if have_strace():
-        n_sql, n_json, maxp = run.n(16, 400 // stride), run.n(0, 200 // stride), run.n(24, 0)
+        n_sql, n_json, maxp = run.n(16, 400 // stride), run.n(9, 200 // stride), run.n(24, 0)
         cases = strace_cases(run.seed, n_sql, n_json)
         chunks = [cases[i::nw] for i in range(nw)]
         common.pool_map(run, __name__, "worker_strace",
@@ -1562,6 +1677,8 @@ def main(run):
     else:
         run.stats.notes.append("strace is not usable here: the syscall-level pass (SQLite) was NOT run")
         run.extra["strace_pass"] = "not run (strace unavailable)"
+    run.extra["wall_split_s"] = {"generation": round(t1 - t0, 1), "json_enumeration": round(t2 - t1, 1),
+                                 "strace_pass": round(_real_time.time() - t2, 1), "procs": procs}
     run.assumptions += [
         "a crash is modelled as process death (kill -9 / os._exit): data handed to the kernel survives, user-space "
         "buffers are lost; power-loss reordering below rename (fsync analysis) is not modelled",
